@@ -16,8 +16,8 @@ OUT=$WORK/baseline.$$.json
 : > $OUT
 # the suite has port-using tests (test/watch) that occasionally fail; a test counts as passing
 # when it passes in one of up to three runs (BASELINE.json was built from three runs as well)
-for try in 1 2 3; do
-(cd $TREE && go test -mod=mod -json -vet=off -count=1 -timeout 25m ./... > $OUT.run 2>/dev/null)
+for try in $(seq 1 ${BASELINE_TRIES:-3}); do
+(cd $TREE && go test -mod=mod -json -vet=off -count=1 -timeout ${BASELINE_GO_TIMEOUT:-25m} ./... > $OUT.run 2>/dev/null)
 python3 - "$OUT.run" "$OUT" <<'PY'
 import json,sys
 base=json.load(open('/root/.vp/BASELINE.json'))
